@@ -807,6 +807,23 @@ func c08Instances(add func(*Instance), thorough bool) {
 				"bk", 2, "bkeys", 4, "bc0", 2, "bc1", 21)})
 		}
 	}
+	// the zero-copy bitmap as argument of an in-place Or / Xor of an ordinary bitmap (keys {0,1,2} into {1}), which is then
+	// mutated inside the trailing chunk it took over
+	for ld := 0; ld <= 2; ld++ {
+		for _, bop := range []int{1, 2} {
+			add(&Instance{Func: "VerifC08Buffer", Params: P("ak", 3, "akeys", 4, "ac0", 1, "ac1", 1, "ac2", 2, "L", 7, "eff", 1, "ld", ld, "detach", 0,
+				"steps", 1, "c0", 9, "bop", bop, "xb", 131072, "xm", 65535, "bk", 1, "bkeys", 5, "bc0", 1)})
+		}
+	}
+	// loading into a receiver that was used and cleared before (stale per-chunk flags), then mutating
+	for ld := 0; ld <= 2; ld++ {
+		for _, c0 := range []int{0, 1, 3} {
+			add(&Instance{Func: "VerifC08Buffer", Params: P("ak", 2, "akeys", 4, "ac0", 2, "ac1", 201, "L", 7, "eff", 1, "ld", ld, "detach", 0, "reuse", 1,
+				"steps", 1, "c0", c0, "xb", 0, "xm", 131071, "sb", 0, "sm", 131071, "len", 3)})
+		}
+		add(&Instance{Func: "VerifC08Buffer", Params: P("ak", 2, "akeys", 4, "ac0", 2, "ac1", 201, "L", 7, "eff", 1, "ld", ld, "detach", 1, "reuse", 1,
+			"steps", 1, "c0", 1, "xb", 0, "xm", 131071, "sb", 0, "sm", 131071, "len", 3)})
+	}
 	// bitmap chunk (8 KiB payload), windowed arguments
 	for ld := 0; ld <= 2; ld++ {
 		for _, c0 := range []int{0, 1, 3, 5} {
